@@ -30,6 +30,11 @@ CORPUS = ["select -'x'", 'select -NULL', 'CREATE SKILL s USING a=1', "CREATE KNO
           'update t set', 'insert into t values', 'delete', 'create table', 'drop', 'show', 'set', 'use', 'describe', 'explain',
           'select ' + '(' * 120 + '1' + ')' * 120, 'select ' + '-' * 200 + '1', 'select ' + ' + '.join(['1'] * 400),
           'select case', 'select cast(', 'select a in ()', 'select * from t where a between', 'with a as', 'select a from t order by',
+          'select a from t limit 10.0', 'select a from t limit null', 'select a from t limit 5, 2.5', 'select a from t limit null, 5',
+          'select a from t limit 5 offset 2.5', 'select a from t limit 5 offset null', 'select a from t limit -1', "select a from t limit 'a' offset 'b'",
+          'select a from t limit true', 'select a from t limit 1 offset true', 'select a from t limit 1e3', 'select a from t limit 0x10',
+          'select a from t order by 1.5', 'select a from t group by null', 'select cast(a as 1) from t', 'select a from t limit (1)',
+          'select a from t limit 1 + 1', 'select a from t limit @v', 'select a from t limit ?', 'select a from t offset 1.5',
           "CREATE MODEL m PREDICT", "CREATE JOB j", "CREATE TRIGGER t ON", "EVALUATE x FROM", "RETRAIN", "CREATE DATABASE d WITH"]
 
 
